@@ -9,8 +9,10 @@ MANIFEST = {
 	'text': 'Theorems (Props/C01.v) over the layout interpreter Cats/Layout.v, an independent Gallina interpreter of the expanded CATS schema '
 		'instantiated with operators regenerated from ArrayHelpers.py/BaseValue.py and with both shipped schemas regenerated from the .cats '
 		'files: little-endian integer round trips for every width and signedness, align_up specification, array write/read round trip with '
-		'the strict-order check, size = encoded length and decode(encode v) = v for the proved fragment (see evidence: theorems and _partial '
-		'markers). The interpreter is tied to the 14 000 generated codec lines by running both on schema-directed values of EVERY class of both '
+		'the strict-order check, size = encoded length and decode(encode v ++ rest) = v for a decidable fragment of ANY schema that contains '
+		'every concrete struct of both shipped schemas (80/84 Symbol, 33/35 NEM; conditionals, sizeof/sizeref, fill and aligned arrays, '
+		'out-of-order unions, parents with and without @size window), and the same for factory decoding (decf_enc_partial); `_partial` '
+		'because the fragment is given by deciders, not by wf_schema. The interpreter is tied to the 14 000 generated codec lines by running both on schema-directed values of EVERY class of both '
 		'modules (enumerated by reflection) and on mutated encodings (serialize, size, deserialize, factory deserialize, re-encode).',
 	'design_ref': 'DESIGN.md section 4, C01 and section 3.3',
 	'technique': 'Coq proof over a schema interpreter (regenerated schema + operators) + vm_compute differential against the generated Python codecs',
@@ -213,6 +215,12 @@ def run_network(check, net, per_class, per_class_mutants):
 			mutant_stream += structured_mutants(net, model, tree_, data_)
 		for data, how in mutant_stream:
 			des_text, decoded = impl_des(net, name, data)
+			if len(des_text) > 200000:
+				# resource rule: a mutated count that makes the codec build tens of thousands of elements out of a few bytes (reads past
+				# the end yield zeros) is evaluated on the implementation only; the model would need gigabytes to print the same tree
+				check.case(f'{net.name}:mutant:exhausting', (name, data.hex()), False)
+				check.extra['exhausting_mutants_skipped_on_model'] = check.extra.get('exhausting_mutants_skipped_on_model', 0) + 1
+				continue
 			exprs.append(f'case_des {net.coq_schema} "{name}" {blit(data)}')
 			expected.append(des_text)
 			meta.append(('des', name, data.hex()))
